@@ -77,10 +77,62 @@ def gen_cases(rng, tier):
             outer.append(o)
             inner.append(i)
         cases.append({'outer': outer, 'inner': inner, 'kind': 'random'})
+    # the same histories realised as atom positions and taken through the public entry point (site search included): every atom sits in the inner
+    # core or only in the outer shell of a site, or far from all sites; some runs never enter any inner core, some leave a whole label group unvisited
+    for _ in range({'quick': 40, 'thorough': 400, 'search': 20}[tier]):
+        T = rng.choice([3, 5, 8, 13, 30])
+        n_atoms = rng.randint(1, 3)
+        never_inner_run = rng.random() < 0.35
+        visit = [0, 1, 2] if rng.random() < 0.5 else [0, 1, 2, 3]          # site 3 is the only site labelled C
+        outer, inner = [], []
+        for _a in range(n_atoms):
+            o, i = [], []
+            cur = rng.choice([-1] + visit)
+            for _t in range(T):
+                if rng.random() < 0.4:
+                    cur = rng.choice([-1] + visit)
+                o.append(cur)
+                i.append(cur if (cur != -1 and not never_inner_run and rng.random() < 0.6) else -1)
+            outer.append(o)
+            inner.append(i)
+        # two atoms may not share a site in a frame only for physical plausibility; the site search does not care
+        cases.append({'outer': outer, 'inner': inner, 'kind': 'api', 'dict_radius': rng.random() < 0.5})
     return cases
 
 
+_API_SITES = [[0.1, 0.1, 0.1], [0.6, 0.1, 0.1], [0.1, 0.6, 0.1], [0.6, 0.6, 0.6]]
+_API_LABELS = ['A', 'B', 'A', 'C']
+
+
+def _impl_api(case):
+    """10 A cubic cell, site radius 1.0 A, inner fraction 0.5: core = 0.2 A from the centre, shell = 0.75 A, transit = (0.35, 0.35, 0.85)"""
+    from pymatgen.core import Structure
+    o = np.array(case['outer'], dtype=int).T
+    i = np.array(case['inner'], dtype=int).T
+    T, na = o.shape
+    pos = np.zeros((T, na, 3))
+    for t in range(T):
+        for a in range(na):
+            if o[t, a] == -1:
+                pos[t, a] = [0.35, 0.35, 0.85]
+            else:
+                pos[t, a] = np.array(_API_SITES[o[t, a]]) + np.array([0.02 if i[t, a] != -1 else 0.075, 0.0, 0.0])
+    m = [[10, 0, 0], [0, 10, 0], [0, 0, 10]]
+    traj = synth.make_traj(m, ['Li'] * na, pos)
+    sites = Structure(lattice=traj.get_lattice(), species=['Li'] * 4, coords=_API_SITES, labels=_API_LABELS)
+    radius = {'A': 1.0, 'B': 1.0, 'C': 1.0} if case.get('dict_radius') else 1.0
+    try:
+        tr = traj.transitions_between_sites(sites, 'Li', site_radius=radius, site_inner_fraction=0.5)
+    except Exception as e:
+        return {'rows': [], 'error': type(e).__name__, 'msg': str(e)[:120], 'prev': None, 'next': None, 'inputs_changed': []}
+    states_ok = bool(np.array_equal(tr.states, o) and np.array_equal(tr.inner_states, i))
+    rows = [[int(v) for v in r] for r in tr.events.to_numpy()]
+    return {'rows': rows, 'error': None, 'prev': tr.states_prev().T.tolist(), 'next': tr.states_next().T.tolist(), 'inputs_changed': [], 'states_ok': states_ok}
+
+
 def impl(case):
+    if case.get('kind') == 'api':
+        return _impl_api(case)
     from gemdat.transitions import Transitions, _calculate_transition_events
     states = np.array(case['outer'], dtype=int).T
     inner = np.array(case['inner'], dtype=int).T
@@ -141,6 +193,10 @@ def oracle(case, out):
                     ri.append(ci)
                 if ro != o or ri != i:
                     fs.append(('events/replay', f'replay of atom {a} does not reconstruct the history'))
+    if out.get('states_ok') is False:
+        fs.append(('events/states-differ-from-construction', 'the site search assigned other states than the positions were built for (core 0.2 A, shell 0.75 A, radius 1.0 A, inner fraction 0.5)'))
+    if out.get('prev') is None:
+        return fs
     for a, o in enumerate(case['outer']):
         cur, p = -1, []
         for v in o:
@@ -162,6 +218,10 @@ def oracle(case, out):
 
 def coq_term(case, out):
     if 'rows' not in out:
+        return None
+    if out.get('prev') is None:
+        # the public entry point raised before any state could be observed; with a change in the history that is a violation found by the oracle
+        # (events/raises-with-change), without one it is the accepted "nothing ever changes" rejection: nothing to hand to the model
         return None
     if out['error'] and not _has_change(case):
         rows = []          # building the table may fail when nothing ever changes
